@@ -280,9 +280,11 @@ class VDec(Val):
     coefficient, >= 1), exp (exponent), val (numeric value as Real, meaningful when finite)."""
     kind = "dec"
 
-    def __init__(self, special, sign, nd, exp, val, cls=None):
+    def __init__(self, special, sign, nd, exp, val, cls=None, p10=None):
         self.special, self.sign, self.nd, self.exp, self.val = special, sign, nd, exp, val
         self.cls = cls
+        # ghost: the coefficient is a power of ten (1, 10, 100, ...) -- what a rounding carry produces
+        self.p10 = p10 if p10 is not None else z3.FreshConst(B, "p10")
 
     def pyclass(self):
         return decimal.Decimal
